@@ -29,6 +29,7 @@ INTERP = {"venv": "/venv/bin/python", "vt": shutil.which("python3-vt") or "pytho
 
 HEADER = """From PV Require Import Base.Prelude {extra} {mod}.
 From Coq Require Import String.
+{pre}
 Open Scope string_scope. Open Scope Z_scope. Open Scope list_scope.
 Definition cases : list case := [
 {body}
@@ -196,7 +197,7 @@ def coq_eval(mod, pairs, workdir, tag):
         sh = shards[k]
         path = os.path.join(workdir, f"{tag}_cases_{k}.v")
         with open(path, "w") as f:
-            f.write(HEADER.format(mod=mod.CHECK_MODULE, extra=getattr(mod, "COQ_IMPORTS", ""), body=";\n".join(t for _, t in sh)))
+            f.write(HEADER.format(mod=mod.CHECK_MODULE, extra=getattr(mod, "COQ_IMPORTS", ""), pre=getattr(mod, "COQ_PRELUDE", ""), body=";\n".join(t for _, t in sh)))
         try:
             r = subprocess.run(["coqc", "-Q", COQ, "PV", path], stdout=subprocess.PIPE, stderr=subprocess.PIPE,
                                text=True, timeout=1800, cwd=workdir)
